@@ -173,6 +173,9 @@ func saveFailure(prop string, sc Script, v []Violation) string {
 		return ""
 	}
 	p := fmt.Sprintf("%s/%s.script.json", dir, prop)
+	if os.Getenv("VERIF_KEEP_ALL_FAILS") != "" {
+		p = fmt.Sprintf("%s/%s.%s.script.json", dir, prop, sc.Digest())
+	}
 	b, _ := json.MarshalIndent(map[string]any{"property": prop, "script": sc, "violations": v, "pretty": sc.Pretty()}, "", " ")
 	os.WriteFile(p, b, 0o644)
 	return p
@@ -265,4 +268,17 @@ func noteCurrent(sc Script) {
 	}
 	b, _ := json.Marshal(map[string]any{"script": sc, "pretty": sc.Pretty()})
 	os.WriteFile(curFile, b, 0o644)
+}
+
+func writeJSON(path string, v any) {
+	b, _ := json.MarshalIndent(v, "", " ")
+	os.WriteFile(path, b, 0o644)
+}
+
+func readJSON(path string, v any) error {
+	b, err := os.ReadFile(path)
+	if err != nil {
+		return err
+	}
+	return json.Unmarshal(b, v)
 }
